@@ -58,7 +58,9 @@ struct Idle {
     std::vector<std::function<bool()> const *> waiting;
     std::function<void()> snapshot;     // called (m held) when quiescence is declared: records what is still owed at that moment
     bool armed = false, abort = false, deadlock = false, watchdog = false, loop_exited = false, stopped = false, stop_called = false, deadlock_after_stop = false;
-    void reset(int act) { active = act; waiting.clear(); armed = true; abort = deadlock = watchdog = loop_exited = stopped = stop_called = deadlock_after_stop = false; }
+    bool loop_sleeping = false;         // the loop thread is inside an indefinite reactor wait (polling_ is set in the library)
+    int cmd = 0; long epoch_started = 0; // loop thread after run() returned: 1 = reset() and run() again on this thread, 2 = leave
+    void reset(int act) { active = act; waiting.clear(); armed = true; abort = deadlock = watchdog = loop_exited = stopped = stop_called = deadlock_after_stop = loop_sleeping = false; }
 };
 static Idle I;
 static thread_local bool t_is_loop = false;
@@ -75,6 +77,10 @@ static void declare_deadlock() { std::lock_guard<std::mutex> l(I.m); if (!I.dead
 // real: int(int timeout_ms).  Only the loop thread's indefinite waits are sliced.
 template <class Real> static int sliced(Real real, int timeout) {
     if (!t_is_loop || (timeout >= 0 && timeout < 30000)) return real(timeout);
+    struct Sleeping {
+        Sleeping() { std::lock_guard<std::mutex> l(I.m); I.loop_sleeping = true; I.cv.notify_all(); }
+        ~Sleeping() { std::lock_guard<std::mutex> l(I.m); I.loop_sleeping = false; }
+    } sleeping;
     for (;;) {
         if (idle_aborting()) return real(20);
         bool cand = idle_candidate();       // read BEFORE the zero-time-out poll: everything the blocked threads issued is visible to it
@@ -112,20 +118,38 @@ int __wrap_select(int n, fd_set *r, fd_set *w, fd_set *e, struct timeval *tv) {
 // ======================================================================================================================
 // loop programs
 // ======================================================================================================================
+enum PK { P_POST, P_TIMER, P_TCANCEL, P_IO, P_IOCANCEL, P_MAX };
+static const char *PKN[] = {"post", "timer", "timer+cancel", "io+ready", "io+cancel"};
+enum { O_STOPSELF = 100 };       // internal: carried onto the loop thread, calls stop() from a handler
 enum OpK { O_POST, O_THROW, O_TIMER, O_TCANCEL, O_ARM, O_IOCANCEL, O_READY, O_HUP, O_FLUSH, O_YIELD, O_DT, O_DTCANCEL, O_SSREAD, O_SSWRITE, O_SSCANCEL, O_MAX };
 static const char *OPN[] = {"post", "throw", "timer", "tcancel", "arm", "iocancel", "ready", "hup", "flush", "yield", "dt", "dtcancel", "ssread", "sswrite", "sscancel"};
 struct Op { int k = 0, a = 0, b = 0, c = 0; };
+// One io_service lives through 1..3 epochs: run() ... everything drained ... stop() ... run() returns ... reset() ... run() again.
+//   stop_mode     how the epoch's run() is ended: 0 stop() from another thread while the loop sleeps in the reactor, 1 stop() from a
+//                 handler on the loop thread, 2 stop() from another thread at once (the only mode of old case files)
+//   restart_mode  who runs the next epoch: 0 the same thread calls reset() and run() again, 1 the thread is joined, reset(), a new thread
+//   probes        (epochs after the first) operations issued one at a time from a non-loop thread while the loop sleeps in the reactor,
+//                 each waited for before the next one; rerun: the producer programs run again in this epoch after the probes
+struct Epoch { int stop_mode = 2, restart_mode = 0, rerun = 0; std::vector<int> probes; };
 struct LCase {
     int reactor = 3, fin = 0, npairs = 1, nblocked = 0, nstream = 0, ndt = 0, stop_yield = 0;
     std::vector<std::vector<Op>> progs;
+    std::vector<Epoch> eps = std::vector<Epoch>(1);
     void encode(vr::CaseWriter &w) const {
         w.i(reactor).i(fin).i(npairs).i(nblocked).i(nstream).i(ndt).i(stop_yield).i(progs.size()).nl();
         for (auto &p : progs) { w.i(p.size()); for (auto &o : p) w.i(o.k).i(o.a).i(o.b).i(o.c); w.nl(); }
+        w.i(eps.size()).nl();
+        for (auto &e : eps) { w.i(e.stop_mode).i(e.restart_mode).i(e.rerun).i(e.probes.size()); for (int k : e.probes) w.i(k); w.nl(); }
     }
+    int nprobe_slots() const { int n = 0; for (auto &e : eps) for (int k : e.probes) if (k == P_IO || k == P_IOCANCEL) n++; return n; }
     static LCase decode(vr::CaseReader &r) {
         LCase c; c.reactor = r.i(); c.fin = r.i(); c.npairs = r.i(); c.nblocked = r.i(); c.nstream = r.i(); c.ndt = r.i(); c.stop_yield = r.i();
         int k = r.i(); c.progs.resize(k);
         for (auto &p : c.progs) { int n = r.i(); p.resize(n); for (auto &o : p) { o.k = r.i(); o.a = r.i(); o.b = r.i(); o.c = r.i(); } }
+        if (r.more()) {          // case files written before epochs existed end here: one epoch, stop at once
+            int ne = r.i(); if (ne < 1) ne = 1; c.eps.assign(ne, Epoch());
+            for (auto &e : c.eps) { e.stop_mode = r.i(); e.restart_mode = r.i(); e.rerun = r.i(); int n = r.i(); e.probes.resize(n); for (auto &k : e.probes) k = ((int)r.i() % P_MAX + P_MAX) % P_MAX; }
+        }
         return c;
     }
     int nslots() const { return 2 * npairs + nblocked; }
@@ -141,6 +165,16 @@ struct LCase {
                 else if (o.k == O_ARM) s << "(s" << o.a << (o.b ? ",out" : ",in") << (o.c ? ",loop" : "") << ")";
                 else if (o.k == O_IOCANCEL || o.k == O_READY) s << "(s" << o.a << (o.k == O_READY ? (o.b ? ",out" : ",in") : (o.c ? ",loop" : o.b & 1 ? ",check" : "")) << ")";
                 else if (o.k == O_TCANCEL) s << "(P" << o.a << "#" << o.b << ")";
+            }
+        }
+        if (eps.size() > 1 || eps[0].stop_mode != 2) {
+            s << " || epochs=" << eps.size();
+            for (size_t e = 0; e < eps.size(); e++) {
+                s << " [E" << e << ":";
+                if (e) { s << " probes:"; for (int k : eps[e].probes) s << " " << PKN[k]; if (eps[e].rerun) s << " +programs"; }
+                if (!(e + 1 == eps.size() && fin)) s << " stop=" << (eps[e].stop_mode == 0 ? "other-thread-while-sleeping" : eps[e].stop_mode == 1 ? "from-handler" : "other-thread-at-once");
+                if (e + 1 < eps.size()) s << " restart=" << (eps[e].restart_mode ? "new-thread" : "same-thread");
+                s << "]";
             }
         }
         return s.str();
@@ -403,7 +437,7 @@ struct Scn {
         }
         ::shutdown(peer[s0], SHUT_RDWR);
     }
-    void do_timer(Op const &o, int p) {
+    int do_timer(Op const &o, int p) {
         int id; booster::ptime dl;
         {
             std::lock_guard<std::mutex> l(I.m);
@@ -424,6 +458,7 @@ struct Scn {
         if (tid < 0) viol("timer:bad-id", "set_timer_event returned " + std::to_string(tid));
         else if (h.deferred_cancel_check && !timer_cancel_justified(h) && !(dt_cancel_last_tick > h.arm_tick)) viol("timer:canceled-without-cancel", hdesc(id) + " received canceled before set_timer_event even returned, no cancel of that id was in flight");
         my_timers[p].push_back(id);
+        return id;
     }
     void cancel_timer_handler(int id) {      // id chosen and claimed under the lock by the caller
         int tid; CancelRec *rec;
@@ -461,6 +496,7 @@ struct Scn {
     // executed on the loop thread
     void exec_on_loop(Op const &o, int p) {
         switch (o.k) {
+        case O_STOPSELF: { { std::lock_guard<std::mutex> l(I.m); I.stop_called = true; } srv->stop(); break; }
         case O_ARM: do_arm(o.a % c.nslots(), o.b & 1, p); break;
         case O_IOCANCEL: do_iocancel(o.a % c.nslots(), p, false); break;
         case O_DT: {
@@ -546,17 +582,64 @@ struct Scn {
         t_is_loop = true;
         { std::lock_guard<std::mutex> l(I.m); loop_tid = pthread_self(); loop_tid_set = true; }
         for (;;) {
-            try { srv->run(); break; }
-            catch (HThrow const &) { std::lock_guard<std::mutex> l(I.m); restarts++; continue; }
-            catch (std::exception const &e) { std::lock_guard<std::mutex> l(I.m); viol("loop:run-threw", std::string("io_service::run() threw ") + e.what()); break; }
+            for (;;) {
+                try { srv->run(); break; }
+                catch (HThrow const &) { std::lock_guard<std::mutex> l(I.m); restarts++; continue; }
+                catch (std::exception const &e) { std::lock_guard<std::mutex> l(I.m); viol("loop:run-threw", std::string("io_service::run() threw ") + e.what()); break; }
+            }
+            std::unique_lock<std::mutex> l(I.m);
+            I.loop_exited = true; I.cv.notify_all();
+            I.cv.wait(l, [] { return I.cmd != 0; });
+            int cmd = I.cmd; I.cmd = 0;
+            if (cmd == 2) break;
+            l.unlock();
+            srv->reset();                 // nobody else touches the service now: the driver waits for epoch_started
+            l.lock(); I.epoch_started++; I.cv.notify_all();
         }
         t_is_loop = false;
-        std::lock_guard<std::mutex> l(I.m); I.loop_exited = true; I.cv.notify_all();
     }
+    // ---- probes: one operation at a time from this (non-loop) thread while the loop sleeps in the reactor ----
+    bool wait_sleeping() { return wait_until([] { return I.loop_sleeping; }); }
+    bool wait_invoked(int id) { return wait_until([this, id] { return hs[id].count > 0; }); }
+    bool probe(int kind) {
+        if (!wait_sleeping()) return false;
+        { std::lock_guard<std::mutex> l(I.m); cls[std::string("probe.") + PKN[kind]]++; }
+        switch (kind) {
+        case P_POST: { int id; { std::lock_guard<std::mutex> l(I.m); id = newh(K_POST, -1); } srv->post(F0{this, id}); return wait_invoked(id); }
+        case P_TIMER: { Op o; o.k = O_TIMER; o.a = 2; o.b = 2; int id = do_timer(o, 0); return wait_invoked(id); }
+        case P_TCANCEL: {
+            Op o; o.k = O_TIMER; o.a = 4; int id = do_timer(o, 0);
+            if (!wait_sleeping()) return false;
+            { std::lock_guard<std::mutex> l(I.m); hs[id].cancel_claimed = true; }
+            cancel_timer_handler(id);
+            return wait_invoked(id); }
+        case P_IO: case P_IOCANCEL: {
+            int slot = probe_slot_next++, id;
+            do_arm(slot, 0, -1);
+            { std::lock_guard<std::mutex> l(I.m); id = busy[slot][0]; }
+            if (id < 0) return false;
+            if (!wait_sleeping()) return false;
+            if (kind == P_IO) do_ready(slot, 0); else do_iocancel(slot, -1, false);
+            return wait_invoked(id); }
+        }
+        return true;
+    }
+    void do_stop(int mode) {
+        if (mode == 0 || mode == 1) wait_sleeping();
+        if (mode == 1 && !aborted()) {
+            { std::lock_guard<std::mutex> l(I.m); cls["stop_from_handler"]++; }
+            Op o; o.k = O_STOPSELF; post_carrier(o, -1);
+        } else {
+            { std::lock_guard<std::mutex> l(I.m); I.stop_called = true; cls[mode == 0 ? "stop_from_other_thread_while_sleeping" : "stop_from_other_thread_at_once"]++; }
+            srv->stop();
+        }
+        wait_until([] { return I.loop_exited; }, true);      // a stop() the sleeping loop never notices shows up as quiescence
+    }
+    int probe_slot_next = 0;
 
     static int mkpair(int sv[2]) { return ::socketpair(AF_UNIX, SOCK_STREAM | SOCK_CLOEXEC, 0, sv); }
     bool setup(std::string &why) {
-        int ns = c.nslots();
+        int ns = c.nslots() + c.nprobe_slots(); probe_slot_next = c.nslots();
         fds.assign(ns, -1); peer.assign(ns, -1); ready.assign(ns, {{false, true}}); hup.assign(ns, false); busy.assign(ns, {{-1, -1}});
         cancels_started.assign(ns, 0); cancel_inflight.assign(ns, 0); last_cancel_end.assign(ns, 0); last_done_cancel_start.assign(ns, 0);
         for (int i = 0; i < c.npairs; i++) {
@@ -578,6 +661,10 @@ struct Scn {
         for (int i = 0; i < c.nstream; i++) {
             int sv[2]; if (mkpair(sv)) { why = "socketpair"; return false; }
             allfds.push_back(sv[0]); allfds.push_back(sv[1]); ss_fd.push_back(sv[0]); ss_peer.push_back(sv[1]);
+        }
+        for (int s = c.nslots(); s < ns; s++) {       // a pair of its own for every descriptor probe of the later epochs
+            int sv[2]; if (mkpair(sv)) { why = "socketpair"; return false; }
+            allfds.push_back(sv[0]); allfds.push_back(sv[1]); fds[s] = sv[0]; peer[s] = sv[1];
         }
         for (int fd : allfds) if (fd >= FD_SETSIZE) { why = "fd too large for select"; return false; }
         ss_busy.assign(c.nstream, -1); ss_cancels.assign(c.nstream, 0); ss_written.assign(c.nstream, 0); ss_read.assign(c.nstream, 0);
@@ -601,29 +688,51 @@ struct Scn {
         if (!setup(why)) { teardown(); VR.inconclusive++; return ok(); }
         std::string want = c.reactor == 1 ? "select" : c.reactor == 2 ? "poll" : "epoll";
         if (srv->reactor_name() != want) { teardown(); return bad("harness:reactor-unavailable", "asked for " + want + ", got " + srv->reactor_name()); }
-        int k = (int)c.progs.size();
-        { std::lock_guard<std::mutex> l(I.m); I.reset(k); I.snapshot = [this] { for (size_t i = 0; i < hs.size(); i++) if (hs[i].count == 0) { owed_sig = std::string(HKN[hs[i].kind]) + ":never-invoked"; owed_msg = hdesc((int)i); return; } }; }
-        t0 = booster::ptime::now();
-        std::thread lt([this] { loop_main(); });
-        std::vector<std::thread> ps;
-        for (int p = 0; p < k; p++) ps.emplace_back([this, p] { producer(p); });
-        bool complete = false;
-        if (c.fin == 0) {
-            for (auto &t : ps) t.join();
-            { std::lock_guard<std::mutex> l(I.m); I.active++; }
-            complete = drain();
-            { std::lock_guard<std::mutex> l(I.m); I.stop_called = true; }
-            srv->stop();
-            wait_until([] { return I.loop_exited; }, true);      // a stop() the sleeping loop never notices shows up as quiescence
-            lt.join();
-        } else {
-            for (int i = 0; i < c.stop_yield; i++) sched_yield();
-            srv->stop();
-            { std::lock_guard<std::mutex> l(I.m); I.stop_called = true; I.stopped = true; I.cv.notify_all(); }
-            for (auto &t : ps) t.join();
-            { std::lock_guard<std::mutex> l(I.m); I.active++; }
-            wait_until([] { return I.loop_exited; }, true);
-            lt.join();
+        int k = (int)c.progs.size(), E = (int)c.eps.size();
+        bool complete = true, lt_running = false;
+        std::thread lt;
+        { std::lock_guard<std::mutex> l(I.m); I.cmd = 0; I.epoch_started = 0; }
+        for (int e = 0; e < E; e++) {
+            Epoch const &ep = c.eps[e];
+            bool last = e + 1 == E;
+            size_t hs0;
+            long want_epoch;
+            { std::lock_guard<std::mutex> l(I.m); I.reset(1); I.snapshot = [this] { for (size_t i = 0; i < hs.size(); i++) if (hs[i].count == 0) { owed_sig = std::string(HKN[hs[i].kind]) + ":never-invoked"; owed_msg = hdesc((int)i); return; } };  hs0 = hs.size(); want_epoch = I.epoch_started + 1; if (lt_running) { I.cmd = 1; I.cv.notify_all(); } }
+            t0 = booster::ptime::now();
+            if (!lt_running) { lt = std::thread([this] { loop_main(); }); lt_running = true; }
+            else {      // same thread: it calls reset() and run() again; nothing may touch the service before reset() is over
+                std::unique_lock<std::mutex> l(I.m);
+                if (!I.cv.wait_for(l, std::chrono::seconds(g_watchdog_s), [&] { return I.epoch_started >= want_epoch; })) { I.watchdog = I.abort = true; }
+            }
+            if (e > 0) for (int pk : ep.probes) if (!probe(pk)) break;
+            std::vector<std::thread> ps;
+            if ((e == 0 || ep.rerun) && !aborted()) {
+                { std::lock_guard<std::mutex> l(I.m); I.active += k; }
+                for (int p = 0; p < k; p++) ps.emplace_back([this, p] { producer(p); });
+            }
+            if (last && c.fin == 1) {
+                for (int i = 0; i < c.stop_yield; i++) sched_yield();
+                srv->stop();
+                { std::lock_guard<std::mutex> l(I.m); I.stop_called = true; I.stopped = true; I.cv.notify_all(); }
+                for (auto &t : ps) t.join();
+                wait_until([] { return I.loop_exited; }, true);
+            } else {
+                { std::lock_guard<std::mutex> l(I.m); I.active--; }          // joining: not waiting for the loop, the producers count
+                for (auto &t : ps) t.join();
+                bool registered;
+                { std::lock_guard<std::mutex> l(I.m); I.active++; registered = hs.size() > hs0; }
+                if (registered) complete = drain() && complete;              // nothing registered in this epoch: stop is the first operation
+                do_stop(ep.stop_mode);
+            }
+            bool more, exited;
+            { std::lock_guard<std::mutex> l(I.m); more = !last && !I.abort; exited = I.loop_exited; }
+            if (!exited) srv->stop();                                         // aborted scenario: get the loop out
+            if (!more || ep.restart_mode == 1) {
+                { std::lock_guard<std::mutex> l(I.m); I.cmd = 2; I.cv.notify_all(); }
+                lt.join(); lt_running = false;
+                if (more) { srv->reset(); std::lock_guard<std::mutex> l(I.m); cls["restart_new_thread"]++; }
+            } else { std::lock_guard<std::mutex> l(I.m); cls["restart_same_thread"]++; }
+            if (!more) break;
         }
         Outcome o = verdict(complete);
         teardown();
@@ -644,7 +753,7 @@ struct Scn {
         });
         srv->post(F0{this, id});
         if (!wait_until([this, id] { return hs[id].count > 0; })) return false;
-        for (int s = 0; s < c.nslots(); s++) do_iocancel(s, -1, false);
+        for (int s = 0; s < (int)fds.size(); s++) do_iocancel(s, -1, false);
         std::vector<int> fars;
         { std::lock_guard<std::mutex> l(I.m); for (size_t i = 0; i < hs.size(); i++) if (hs[i].kind == K_TIMER && hs[i].is_far && !hs[i].cancel_claimed) { hs[i].cancel_claimed = true; fars.push_back((int)i); } }
         for (int f : fars) cancel_timer_handler(f);
@@ -677,7 +786,7 @@ void FE::operator()(error_code const &e) const { s->runE(id, e); }
 void FIO::operator()(error_code const &e, size_t n) const { s->runIO(id, e, n); }
 
 static bool loop_nontrivial(LCase const &c) {
-    if (c.fin == 1) return true;
+    if (c.fin == 1 || c.eps.size() > 1) return true;
     std::map<int, int> toucher; bool shared = false, cancel = false;
     for (size_t p = 0; p < c.progs.size(); p++) for (auto &o : c.progs[p]) {
         if (o.k == O_TCANCEL || o.k == O_IOCANCEL || o.k == O_DTCANCEL || o.k == O_SSCANCEL) cancel = true;
@@ -726,6 +835,8 @@ static Outcome p_loop(LCase const &c) {
     VR.eval();
     { vr::CaseWriter w; c.encode(w); if (loop_nontrivial(c)) VR.nontrivial(vr::fnv(w.str(), 171)); }
     VR.cls(std::string("loop.case.") + (c.fin ? "stop_race" : "drain")); VR.cls("loop.case.producers=" + std::to_string(c.progs.size()));
+    VR.cls("loop.epochs=" + std::to_string(c.eps.size()));
+    if (c.eps.size() > 1) VR.cls(std::string("loop.multi_epoch.reactor=") + (c.reactor == 1 ? "select" : c.reactor == 2 ? "poll" : "epoll"));
     VR.cls(std::string("loop.case.reactor=") + (c.reactor == 1 ? "select" : c.reactor == 2 ? "poll" : "epoll"));
     if (VR.want_sample()) VR.sample("loop: " + c.text().substr(0, 600));
     int reps = g_replay ? (int)vr::envl("C17_REPLAY_REPS", 120) : (int)vr::envl("C17_REPS", 1);
@@ -741,6 +852,20 @@ static rc::Gen<LCase> gen_loop(int reactor) {
         c.stop_yield = *vr::range<int>(0, 300);
         auto kind = rc::gen::weightedElement<int>({{10, O_POST}, {1, O_THROW}, {12, O_TIMER}, {9, O_TCANCEL}, {12, O_ARM}, {7, O_IOCANCEL}, {8, O_READY}, {1, O_HUP},
                                                   {3, O_FLUSH}, {4, O_YIELD}, {3, O_DT}, {2, O_DTCANCEL}, {3, O_SSREAD}, {3, O_SSWRITE}, {1, O_SSCANCEL}});
+        int E = *rc::gen::weightedElement<int>({{5, 1}, {3, 2}, {2, 3}});
+        c.eps.assign(E, Epoch());
+        for (int e = 0; e < E; e++) {
+            Epoch &ep = c.eps[e];
+            ep.stop_mode = e + 1 < E ? *vr::range<int>(0, 2) : *vr::range<int>(0, 3);
+            ep.restart_mode = *vr::range<int>(0, 2);
+            if (e > 0) {
+                ep.rerun = *vr::range<int>(0, 2);
+                ep.probes = {P_POST, P_TIMER, P_TCANCEL, P_IO, P_IOCANCEL};          // every kind, in a generated order, plus a few repeats
+                for (int i = 0; i < P_MAX; i++) std::swap(ep.probes[i], ep.probes[*vr::range<int>(i, (int)P_MAX)]);
+                int extra = *vr::range<int>(0, 3);
+                for (int i = 0; i < extra; i++) ep.probes.push_back(*vr::range<int>(0, (int)P_MAX));
+            }
+        }
         c.progs.resize(k);
         for (int p = 0; p < k; p++) {
             int n = *vr::range<int>(1, 15);
@@ -1027,9 +1152,17 @@ int main(int argc, char **argv) {
     props.push_back(vr::prop<FCase>("fdops-rearm", rc::gen::just(FCase()), p_fdops));
     props.push_back(vr::prop<FCase>("fdops-queued", rc::gen::just(FCase()), p_fdops));
     std::string mode = vr::env("C17_MODE", "");
-    if (!g_replay && mode == "fdops") {
+    if (!g_replay && (mode == "fdops" || mode == "fixed")) {
         vr::install_crash_hooks();
         bool good = true;
+        // restart grid: reactor x how the first run() was stopped x who runs the second one x first operation after reset()
+        if (mode == "fixed") for (int r = 1; r <= 3; r++) for (int sm = 0; sm < 2; sm++) for (int rm = 0; rm < 2; rm++) for (int first = 0; first <= P_MAX; first++) {
+            LCase c; c.reactor = r; c.progs.resize(1); c.progs[0].resize(1); c.progs[0][0].k = O_POST;
+            c.eps.assign(2, Epoch()); c.eps[0].stop_mode = sm; c.eps[0].restart_mode = rm; c.eps[1].stop_mode = 0;
+            if (first < P_MAX) c.eps[1].probes.push_back(first);          // first == P_MAX: stop() is the first operation
+            VR.cls("grid.restart.cases");
+            good = vr::run_direct("loop", c, p_loop) && good;
+        }
         for (int r = 1; r <= 3; r++) for (int v = 0; v < 4; v++) { FCase c; c.reactor = r; c.variant = v; c.rounds = (int)vr::envl("C17_FDOPS_ROUNDS", 200); good = vr::run_direct(v == 1 ? "fdops-queued" : "fdops-rearm", c, p_fdops) && good; }
         VR.finish();
         return good ? 0 : 1;
